@@ -21,7 +21,7 @@ func init() {
 		Explanation: "Bit-exact results for every operand value cannot be enumerated, but the implementation's strategy makes them a shape fact: each typed case of each op method converts both float64 payloads to the Go type of the tag, applies the Go operator, converts back, and keeps the tag; float64 represents every int32/uint32 exactly, so the result is Go's by construction. TAB-TAGS evaluates the tag constants (T|untyped==T, T|T==T, distinct, numeric mask, nillable split). TAB-OPCHAIN composes infixMap -> opcode -> exec handler (operand order from the symbolic summary) -> op method -> the Go operator inside it, for all 16 arithmetic/comparison operators, with go/token as oracle. OPS-ARITH checks the 50 sibling cases (10 methods x 5 tags). OPS-SHIFT: a shift's result tag depends on the left operand only. OPS-IMM: every immediate the VM feeds to an op method is an untyped constant. OPS-COMPOUND: op= / ++ / -- compile to load-target, right operand, the operator of infixMap[op without '='], store. OPS-ASSIGN / OPS-CONVERT: a case per typed tag converting through the matching Go type. TAB-CAST: the declared types for which `var x T = e` emits CAST include all five numeric tags. REP-TYPEDSTORE: every store into typed storage (locals, globals, slice/map elements, struct fields, parameters, results) goes through assign with the storage's type. Not decided: values (overflow of untyped x untyped in float64, float operands of % and shifts, shift counts >= width, platform-defined float->unsigned of negatives).",
 		Assumptions: []string{"float64 represents every int8/uint8/int32/uint32 value exactly", "Go's own operators on the converted operands are the oracle"},
 		Quick: []ruleDef{
-			{"TAB-TAGS", 38, ruleTabTags},
+			{"TAB-TAGS", 24, ruleTabTags},
 			{"TAB-OPCHAIN", 16, ruleTabOpchain},
 			{"OPS-ARITH", 50, ruleOpsArith},
 			{"OPS-SHIFT", 2, ruleOpsShift},
@@ -29,10 +29,10 @@ func init() {
 			{"OPS-COMPOUND", 12, ruleOpsCompound},
 			{"OPS-ASSIGN", 6, ruleOpsAssign},
 			{"OPS-CONVERT", 5, ruleOpsConvert},
-			{"OPS-CONST", 10, ruleOpsConst},
+			{"OPS-CONST", 6, ruleOpsConst},
 			{"OPS-UNARY", 1, ruleOpsUnary},
-			{"REP-ANYSTORE", 2, ruleRepAnyStore},
-			{"TAB-CAST", 12, ruleTabCast},
+			{"REP-ANYSTORE", 1, ruleRepAnyStore},
+			{"TAB-CAST", 7, ruleTabCast},
 			{"REP-TYPEDSTORE", 9, ruleRepTypedStore},
 		},
 	})
